@@ -265,7 +265,7 @@ impl<'r, 'a, 'ast> Visit<'ast> for Coll<'r, 'a> {
         self.edits.push((range(a.span()), String::new()));
     }
     fn visit_visibility(&mut self, v: &'ast syn::Visibility) {
-        if !matches!(v, syn::Visibility::Inherited) {
+        if !matches!(v, syn::Visibility::Inherited) && self.r.opts.get("vis") != Some("keep") {
             self.edits.push((range(v.span()), String::new()));
         }
     }
@@ -573,7 +573,12 @@ fn render_fn(r: &R, fr: FnRef, contract: &str, as_name: Option<&str>) -> String 
     } else {
         body
     };
-    format!("{}\n{}\n{}", sig_txt, contract.trim_end(), body)
+    let vis = match fr {
+        FnRef::Free(f) => &f.vis,
+        FnRef::Method(m) => &m.vis,
+    };
+    let pfx = if r.opts.get("vis") == Some("keep") && !matches!(vis, syn::Visibility::Inherited) { "pub " } else { "" };
+    format!("{}{}\n{}\n{}", pfx, sig_txt, contract.trim_end(), body)
 }
 
 // ---------------------------------------------------------------------------------------------
